@@ -195,7 +195,7 @@ func maybeZoneChild(ctx *core.Ctx) {
 		go func() {
 			defer wg.Done()
 			for cc := range cases {
-				e, err := pool.get(cc.Mask, cc.TimeOpen, cc.Mode, cc.Frames, cc.Hosts)
+				e, err := pool.getSrc(cc.Mask, cc.TimeOpen, cc.Mode, cc.Frames, cc.hostsSrc(), cc.Server)
 				if err != nil {
 					ctx.Crash("proxy starts with a valid configuration", "", cc, err.Error())
 					continue
